@@ -628,6 +628,16 @@ class TrigTime:
                 year, month, day = int(match0[1]), int(match0[2]), int(match0[3])
             else:
                 month, day = int(match0[1]), int(match0[2])
+                if day_offset > 0:
+                    # this year's date has passed: a date without year recurs every year
+                    year += 1
+                for _ in range(8):
+                    # 2/29 means the next leap day
+                    try:
+                        dt.date(year, month, day)
+                        break
+                    except ValueError:
+                        year += 1
             day_offset = 0  # explicit date means no offset
             fixed_date = True
             dt_str = dt_str[len(match0.group(0)) :]
